@@ -123,6 +123,47 @@ def lshift(a, k):
     return mul(a, 1 << k)
 
 
+def from_parts(parts):
+    """the integer sum(piece << shift) of disjoint bit fields ((shift, width, piece) with 0 <= piece < 2**width); the result
+    remembers its fields so that later shifts and masks by constants split it field-wise instead of producing div / mod of a sum"""
+    parts = [(sh, w, p) for sh, w, p in parts if w > 0 and not (isinstance(p, int) and p == 0)]
+    total = 0
+    for sh, w, p in parts:
+        total = add(total, mul(p, 1 << sh))
+    if isinstance(total, SInt):
+        hi = sum(((1 << w) - 1) << sh for sh, w, p in parts)
+        total = SInt(total.t, 0, hi if total.hi is None else min(hi, total.hi), min((sh for sh, w, p in parts), default=0))
+        if len(parts) > 1:
+            total.parts = tuple(sorted(parts, key=lambda x: x[0]))
+    return total
+
+
+def _pow2_exp(d):
+    return d.bit_length() - 1 if d > 0 and d & (d - 1) == 0 else None
+
+
+def _parts_shr(parts, s):
+    out = []
+    for sh, w, p in parts:
+        if sh >= s:
+            out.append((sh - s, w, p))
+        elif sh + w > s:
+            r = s - sh
+            out.append((0, w - r, floordiv_const(p, 1 << r)))
+    return from_parts(out)
+
+
+def _parts_low(parts, s):
+    out = []
+    for sh, w, p in parts:
+        if sh + w <= s:
+            out.append((sh, w, p))
+        elif sh < s:
+            r = s - sh
+            out.append((sh, r, mod_const(p, 1 << r)))
+    return from_parts(out)
+
+
 def floordiv_const(a, d):
     """a // d for concrete d > 0 (z3 div is floor for positive divisors)."""
     a = as_int(a)
@@ -130,6 +171,8 @@ def floordiv_const(a, d):
         return a // d
     if d == 1:
         return a
+    if a.parts is not None and _pow2_exp(d) is not None:
+        return _parts_shr(a.parts, _pow2_exp(d))
     lo = None if a.lo is None else a.lo // d
     hi = None if a.hi is None else a.hi // d
     return mk(a.t / z3.IntVal(d), lo, hi, 0)
@@ -141,6 +184,8 @@ def mod_const(a, d):
         return a % d
     if a.lo is not None and a.hi is not None and 0 <= a.lo and a.hi < d:
         return a
+    if a.parts is not None and _pow2_exp(d) is not None:
+        return _parts_low(a.parts, _pow2_exp(d))
     return mk(a.t % z3.IntVal(d), 0, d - 1, min(a.tz, tz_of_const(d)) if a.tz else 0)
 
 
